@@ -26,6 +26,8 @@ const (
 	restMiddle        // 0 .. X .. 0
 	restNines         // 9 9 .. 9
 	restChunk         // a single non-zero digit 18 or 19 places above the end (64-bit decimal chunk boundary)
+	restGroup4        // g 0 0 0 | X 0 ..  the digits are cut off four at a time: the top group holds the guard and zeros, the next group starts with X >= 5
+	restGroup8        // g 0 0 0 0 0 0 0 | X 0 ..  the same for a step of eight digits
 	nRest
 )
 
@@ -58,6 +60,14 @@ func tailGrid(js []int) []tailSpec {
 					if n < 20 {
 						continue
 					}
+				case restGroup4:
+					if n < 4 {
+						continue
+					}
+				case restGroup8:
+					if n < 8 {
+						continue
+					}
 				}
 				out = append(out, tailSpec{j, gd, rest})
 			}
@@ -86,6 +96,10 @@ func (g *Gen) tailValue(t tailSpec) *big.Int {
 		rest.Sub(pow10(n), big.NewInt(1))
 	case restChunk:
 		rest.Mul(x, pow10(18+g.r.Intn(2)))
+	case restGroup4:
+		rest.Mul(big.NewInt(int64(5+g.r.Intn(5))), pow10(n-4))
+	case restGroup8:
+		rest.Mul(big.NewInt(int64(5+g.r.Intn(5))), pow10(n-8))
 	}
 	v := new(big.Int).Mul(big.NewInt(int64(t.guard)), pow10(n))
 	return v.Add(v, rest)
